@@ -141,8 +141,8 @@ CHECKS["C02"] = dict(
     technique="exhaustive enumeration of (cpu, instruction template, numeric slot) x reference kind (literal, backward/forward label small/large, equ, "
               ".define, .set) x -optimize through the real two-pass flow; invariant oracle: pass-1 label address = pass-2 placement of the marker that follows it",
     text="For every instruction template of every CPU (comparison corpus as input; decoder-derived shapes for CPUs without one) and every numeric "
-         "slot, the operand is replaced by each of ten reference kinds (small/large literal, backward label small/large, forward label that turns out "
-         "small/large, equ small/large, .define, .set), with and without -optimize, and in the thorough tier followed by a second variable instruction "
+         "slot, the operand is replaced by each of fourteen reference kinds (small/large literal, backward label small/large, forward label that turns out "
+         "small/large or all ones in 16/20 bits, equ small/large, .define, .set small / re-assigned later, odd data bytes in front), with and without -optimize, and in the thorough tier followed by a second variable instruction "
          "for nine ordered pairs of kinds; each label is followed by a unique marker, and the address recorded for the label in pass 1 (the symbol "
          "table is locked in pass 2) must be the address at which the marker is placed in the pass-2 image.",
     note="Library seam (probe/asmprobe.cpp mirrors main()'s flow); the precondition of the property (no conditional or macro depending on later "
@@ -184,7 +184,8 @@ CHECKS["C19"] = dict(
          "lists is executed in a scripted session; afterwards print, print16 and print32 over ranges around every touched region (three range "
          "spellings) must show exactly the byte map of the reference model - the written bytes at address x bytes_per_address in the CPU's byte "
          "order and every other byte unchanged; a refused (unaligned) write must change nothing and an aligned write must not be refused; the "
-         "simulator must execute the instruction that was written where pc is set, and -bin -address must place a raw file where it says.",
+         "simulator must execute the instruction that was written where pc is set, -bin -address must place a raw file where it says, and -set_pc <v> (seven values in two spellings on msp430, six on mips) "
+         "must start the session with PC = v and execute the instruction there first.",
     note="Interactive 'asm' cannot be scripted (every source line is answered 'Unknown command'); in-process assembly histories are covered by C13. Hex numbers are also spelled with upper-case digits; `disasm` without a range (and `-disasm`) must show every 256-byte block of images that cross page boundaries.")
 
 CHECKS["C14"] = dict(
@@ -210,11 +211,12 @@ CHECKS["C15"] = dict(
               "pattern-initialised builds for dependence on uninitialised memory",
     text="For each of the 20 cpu_list entries with a simulator (15 simulator classes): all 65 536 values of the leading half-word (and of the "
          "second half-word for 32-bit instruction sets) x operand fills 00/ff/55aa/7f80 x register presets (reset state, all registers "
-         "0xffffffff, 0x55aa55aa, stack pointer 0/1/0xffff/0xfffe, every third register of the name list zero and the others all ones) at pc 0x1000, plus pc 0 (operands pointing at the instruction itself) "
+         "0xffffffff, 0x55aa55aa, stack pointer 0/1/0xffff/0xfffe, every third register of the name list zero and the others all ones) at pc 0x1000, plus pc 0 (operands pointing at the instruction itself; all-ones fill with all-ones registers) "
          "and the top of the 64 KiB space. Every step must return control (no signal, no exit(), no hang), raise no AddressSanitizer/UBSan "
          "bounds report, give the same dump + memory + return value on a second identically prepared simulator, and the same results in the "
          "zero- and pattern-initialised builds; for the simulators that size instructions with the disassembler (6502, 65816, 65832) the pc "
-         "advance must use the length of the instruction executed, not of what it left behind.",
+         "advance must use the length of the instruction executed, not of what it left behind; a 6502 step must not write a page of the image "
+         "at or above 0x10000.",
     note="A cell whose steps kill the process is bisected to the opcode; after 48 deaths the cell is reported once as a storm. Sanitizer "
          "reports are the first trigger per code location per cell (recover mode deduplicates). ebpf and tms9900 are stubs that execute "
          "nothing; their cells only exercise construction, set_reg and the fetch.")
